@@ -16,6 +16,12 @@ AltC(cn, tag, fs, cons) == S!AltC(cn, tag, fs, cons)  URange(n, lo, hi) == S!URa
 Tag32(a, b, c, d) == S!BytesToBits(<<a, b, c, d>>)
 Tag8(a) == S!BytesToBits(<<a>>)
 
+ShardStateFields == << F("global_id", I(32)), F("shard_id", Named("ShardIdent")),
+        F("seq_no", U(32)), F("vert_seq_no", U(32)), F("gen_utime", U(32)), F("gen_lt", U(64)), F("min_ref_mc_seqno", U(32)),
+        F("out_msg_queue_info", RefCell), F("before_split", Bool),
+        F("accounts", Ref(HmAugE(256, Lite(Named("ShardAccount")), Named("DepthBalanceInfo")))),
+        F("r1", Ref(Named("ShardStateR"))), F("custom", Maybe(Ref(Lite(Named("McStateExtra"))))) >>
+
 TheSchema == [
   Grams |-> << Alt("grams", <<>>, << F("amount", VarU(16)) >>) >>,
   StorageUsedShort |-> << Alt("storage_used_short", <<>>, << F("cells", VarU(7)), F("bits", VarU(7)) >>) >>,
@@ -319,11 +325,12 @@ TheSchema == [
   \* (the library keeps out_msg_queue_info as a cell and the library descriptors as their leaf slices)
   ShardStateR |-> << Alt("r1", <<>>, << F("overload_history", U(64)), F("underload_history", U(64)), F("total_balance", CC),
         F("total_validator_fees", CC), F("libraries", HmE(256, AnyRest)), F("master_ref", Maybe(Named("BlkMasterInfo"))) >>) >>,
-  ShardStateUnsplit |-> << Alt("shard_state", Tag32(144, 35, 175, 226), << F("global_id", I(32)), F("shard_id", Named("ShardIdent")),
-        F("seq_no", U(32)), F("vert_seq_no", U(32)), F("gen_utime", U(32)), F("gen_lt", U(64)), F("min_ref_mc_seqno", U(32)),
-        F("out_msg_queue_info", RefCell), F("before_split", Bool),
-        F("accounts", Ref(HmAugE(256, Lite(Named("ShardAccount")), Named("DepthBalanceInfo")))),
-        F("r1", Ref(Named("ShardStateR"))), F("custom", Maybe(Ref(Lite(Named("McStateExtra"))))) >>) >>,
+  ShardStateUnsplit |-> << Alt("shard_state", Tag32(144, 35, 175, 226), ShardStateFields) >>,
+  \* _ ShardStateUnsplit = ShardState;   split_state#5f327da5 left:^ShardStateUnsplit right:^ShardStateUnsplit = ShardState;
+  \* (the first alternative has no tag of its own: it is told apart by shard_state's tag, so its fields are transcribed in place)
+  ShardState |-> << Alt("shard_state_unsplit_", Tag32(144, 35, 175, 226), ShardStateFields),
+                    Alt("split_state", Tag32(95, 50, 125, 165), << F("left", Ref(Lite(Named("ShardStateUnsplit")))),
+                                                                  F("right", Ref(Lite(Named("ShardStateUnsplit")))) >>) >>,
   \* ---- the block itself
   \* block_extra in_msg_descr:^InMsgDescr out_msg_descr:^OutMsgDescr account_blocks:^ShardAccountBlocks rand_seed:bits256 created_by:bits256
   \*   custom:(Maybe ^McBlockExtra) = BlockExtra;   InMsgDescr = HashmapAugE 256 InMsg ImportFees, OutMsgDescr = HashmapAugE 256 OutMsg
@@ -346,7 +353,7 @@ Labels == [
   tr_phase_bounce_negfunds |-> "negfunds", tr_phase_bounce_nofunds |-> "nofunds", tr_phase_bounce_ok |-> "ok",
   trans_ord |-> "ordinary", trans_storage |-> "storage", trans_tick_tock |-> "tick_tock", trans_split_prepare |-> "split_prepare",
   trans_split_install |-> "split_install", trans_merge_prepare |-> "merge_prepare", trans_merge_install |-> "merge_install",
-  fsm_none |-> "", account_none |-> "",
+  fsm_none |-> "", account_none |-> "", shard_state_unsplit_ |-> "_",
   \* anonymous ^[ ... ] groups of block.tlb, transcribed as auxiliary one-alternative types: no constructor of their own
   rest |-> "*", a |-> "*", b |-> "*", r1 |-> "*"
 ]
